@@ -20,7 +20,14 @@
 (* Environment: clock (every Now() returns a fresh time, identified by its    *)
 (* number), schedule (every UntilNext returns a fresh duration, identified by *)
 (* its number), timers (Fire makes the channel returned by the last After     *)
-(* ready), the refresher (outcome "nil" or "err"; the k-th Refresh call       *)
+(* ready), the refresher (outcome "nil" or a KIND of error: "err" plain,      *)
+(* "ctxerr" = the refresh context's own ctx.Err() returned after that context *)
+(* became done DURING the refresh - the worker's refresh timeout fired, or    *)
+(* Shutdown's context expired while the final refresh ran -, "wctxerr" the    *)
+(* same wrapped with %w, "cause" = context.Cause(ctx).  The kind is data the  *)
+(* code might be tempted to inspect (errors.Is against the context it made);  *)
+(* C18 does not depend on it: every error of a periodic refresh goes to the   *)
+(* ErrorHandler, the final refresh's error is Shutdown's.  The k-th Refresh   *)
 (* fails with error number k).                                                *)
 (*                                                                            *)
 (* Go's select picks at random when both `done` and the timer channel are     *)
@@ -32,7 +39,7 @@ EXTENDS Integers, Sequences
 
 CONSTANTS MaxTicks,     \* bound on the number of timer firings (model checking)
           ROSChoices,   \* values of RefreshOnShutdown chosen in Init
-          RefOutcomes,  \* {"nil", "err"}
+          RefOutcomes,  \* "nil" and the error kinds
           AllowTBD,     \* FALSE: the sequential driver (no Fire once done is closed)
           SctxInit,     \* initial states of the Start context: subset of {"live", "cancelled"}
           StopOnCancel, \* FALSE = the code as it is; TRUE = a loop that also returns when the Start context is
@@ -140,7 +147,7 @@ SeeDone ==
 Refresh(out) ==
     /\ lp = "refresh" /\ out \in RefOutcomes
     /\ refs' = Append(refs, Ref("loop", out))
-    /\ IF out = "err" THEN lerr' = Len(refs) + 1 /\ lp' = "handle"
+    /\ IF out # "nil" THEN lerr' = Len(refs) + 1 /\ lp' = "handle"
                       ELSE lerr' = 0 /\ lp' = "ask"
     /\ trig' = "none"
     /\ UNCHANGED <<ros, sctx, extra, sp, done, nnow, nd, askedWith, waitD, timer, timerD, fires, ticks, handled, result, ferr, tbd>>
@@ -191,7 +198,7 @@ Shutdown ==
 FinalRefresh(out) ==
     /\ sp = "final" /\ out \in RefOutcomes
     /\ refs' = Append(refs, Ref("final", out))
-    /\ ferr' = IF out = "err" THEN Len(refs) + 1 ELSE 0
+    /\ ferr' = IF out # "nil" THEN Len(refs) + 1 ELSE 0
     /\ sp' = "infinal"
     /\ UNCHANGED <<ros, sctx, extra, lp, done, nnow, nd, askedWith, waitD, timer, timerD, fires, ticks, lerr, handled, result, tbd, trig>>
 
@@ -241,7 +248,7 @@ IsTBD(r) == r.trig = "tbd"
 IsLate(r) == r.trig = "late"
 LoopRefs == Count(refs, IsLoop)
 FinalRefs == Count(refs, IsFinal)
-LoopErrs == {k \in 1..Len(refs) : refs[k].who = "loop" /\ refs[k].out = "err"}
+LoopErrs == {k \in 1..Len(refs) : refs[k].who = "loop" /\ refs[k].out # "nil"}
 Range(s) == {s[k] : k \in 1..Len(s)}
 
 WTypeOK == /\ lp \in {"ask", "sleep", "waiting", "refresh", "handle", "stopped"}
@@ -313,7 +320,7 @@ SequentialNoRefreshAfterShutdown == Count(refs, IsLoopAfterShutdown) = 0 /\ Coun
 ShutdownResult ==
     /\ (sp = "returned") <=> (result # -1)
     /\ (sp = "returned") => result = ferr
-    /\ (ferr # 0) => (ros /\ refs[ferr].who = "final" /\ refs[ferr].out = "err")
+    /\ (ferr # 0) => (ros /\ refs[ferr].who = "final" /\ refs[ferr].out # "nil")
     /\ (~ros) => ferr = 0
 
 (* Once stopped the loop does nothing any more. *)
